@@ -232,8 +232,15 @@ def main(tier):
     live = dict(Kind="patience", Monitor="val", Patience=2, MinDelta=1, Epochs=0, L=4, B=2, HasVal=True, Alphabet={2}, MaxEpoch=9)
     jobs.append(dict(module_path="mc/MC_TrainLoop.tla", constants=live, coverage=True, workers=4,
                      cfg=tlc.make_cfg(constants=live, invariants=["LoopInv"], specification="Spec", properties=["Terminates"])))
+    # the boundary count in the loop design: with EpochStop(0) the loop is Init -> StopCheck (TRUE) -> Return, no batch is ever made
+    zero = dict(Kind="epochs", Monitor="train", Patience=0, MinDelta=0, Epochs=0, L=3, B=2, HasVal=False, Alphabet={1, 2}, MaxEpoch=4)
+    jobs.append(dict(module_path="mc/MC_TrainLoop.tla", constants=zero, coverage=True, workers=2,
+                     cfg=tlc.make_cfg(constants=zero, invariants=["LoopInv"], specification="Spec", properties=["Terminates"])))
     for r in tlc.run_many(jobs, parallel=4):
-        chk.add_tlc(r, vacuity_actions=("StopCheck", "MakeBatches", "DoTrainStep", "Return"))
+        is_zero = r.constants.get("Kind") == "epochs" and r.constants.get("Epochs") == 0
+        if is_zero and (r.coverage.get("DoTrainStep", (0, 0))[0] != 0 or r.coverage.get("MakeBatches", (0, 0))[0] != 0):
+            raise RuntimeError("MC_TrainLoop with Epochs = 0 took a training step")
+        chk.add_tlc(r, vacuity_actions=("StopCheck", "Return") if is_zero else ("StopCheck", "MakeBatches", "DoTrainStep", "Return"))
         if not r.ok:
             chk.spec_violation(r, "training-loop design invariant / termination fails in the specification")
     chk.exhaustive = True
